@@ -176,6 +176,25 @@ def _token_index(n):
     return None
 
 
+def _reserved_word_helpers(prog):
+    """static helpers of parser.c every path of which invokes the error callback with CIF_RESERVED_WORD"""
+    cache = getattr(prog, "_rw_helpers", None)
+    if cache is not None:
+        return cache
+    out = set()
+    for fn in prog.all_functions():
+        if fn.unit != "parser.c" or fn.name == "next_token":
+            continue
+        sites = []
+        for (b, i, r, n) in fn.eval_sites("call"):
+            if not n.get("callee") and n.get("args") and macro_name(n["args"][0]) == "CIF_RESERVED_WORD":
+                sites.append((b.id, i))
+        if sites and cfgq.must_follow(fn, (fn.entry, -1), sites):
+            out.add(fn.name)
+    prog._rw_helpers = out
+    return out
+
+
 def next_token_words(prog):
     """-> {word: set(outcomes)} read off next_token's class-comparison chain (true edges only)."""
     fn = prog.fn("next_token")
@@ -226,6 +245,9 @@ def next_token_words(prog):
                     a0 = n.get("args", [None])[0]
                     if macro_name(a0) == "CIF_RESERVED_WORD":
                         outcome = "error:CIF_RESERVED_WORD"
+                elif n.get("k") == "call" and n.get("callee") in _reserved_word_helpers(prog):
+                    # a helper of parser.c that does nothing but report CIF_RESERVED_WORD to the error callback
+                    outcome = "error:CIF_RESERVED_WORD"
                 if n.get("k") == "asg" and path(strip(n.get("lhs"))) == "scanner->ttype":
                     outcome = outcome or "END-OF-REGION"
         if outcome == "END-OF-REGION":
